@@ -114,6 +114,9 @@ enum Mut {
 	/// downgrade: the proof is dropped AND the reply is relabelled as the other flow's reply
 	/// (Standard2 <-> Invoice2), the state the foreign finalize dispatches on
 	PPStripRelabel,
+	/// the same, after the counterparty has planted a received entry under the slate id in the
+	/// finalizing wallet (a fresh send slate with its id overwritten, delivered to its foreign receive_tx)
+	PPStripRelabelPlanted,
 	PPNoSig,
 	PPResign(bool),            // signed by another wallet's address key; true: its address put in as well
 	PPOver(i64, bool, bool),   // right key, over amount+d / another excess / another sender address
@@ -227,6 +230,7 @@ impl Mut {
 			Mut::ComsUnsorted => json!(["ComsUnsorted"]),
 			Mut::PPStrip => json!(["PPStrip"]),
 			Mut::PPStripRelabel => json!(["PPStripRelabel"]),
+			Mut::PPStripRelabelPlanted => json!(["PPStripRelabelPlanted"]),
 			Mut::PPNoSig => json!(["PPNoSig"]),
 			Mut::PPResign(b) => json!(["PPResign", b]),
 			Mut::PPOver(d, e, x) => json!(["PPOver", d, e, x]),
@@ -287,6 +291,7 @@ impl Mut {
 			"ComsUnsorted" => Mut::ComsUnsorted,
 			"PPStrip" => Mut::PPStrip,
 			"PPStripRelabel" => Mut::PPStripRelabel,
+			"PPStripRelabelPlanted" => Mut::PPStripRelabelPlanted,
 			"PPNoSig" => Mut::PPNoSig,
 			"PPResign" => Mut::PPResign(b(1)),
 			"PPOver" => Mut::PPOver(i(1), b(2), b(3)),
@@ -347,7 +352,7 @@ impl Mut {
 			Mut::ComsAddSenderInput => "MComsAddSenderInput".into(),
 			Mut::ComsUnsorted => "MComsUnsorted".into(),
 			Mut::PPStrip => "MPPStrip".into(),
-			Mut::PPStripRelabel => "MPPStripRelabel".into(),
+			Mut::PPStripRelabel | Mut::PPStripRelabelPlanted => "MPPStripRelabel".into(),
 			Mut::PPNoSig => "MPPNoSig".into(),
 			Mut::PPResign(b) => format!("(MPPResign {}%Z {})", ADDR_R2, b),
 			Mut::PPOver(d, e, x) => format!("(MPPOver {} {} {})", z(*d), e, x),
@@ -518,7 +523,8 @@ fn pp_catalogue() -> Vec<Mut> {
 	vec![
 		Mut::PPStrip,
 		Mut::PPStripRelabel,
-		Mut::PPStripRelabel,
+		Mut::PPStripRelabelPlanted,
+		Mut::PPStripRelabelPlanted,
 		Mut::PPNoSig,
 		Mut::PPResign(false),
 		Mut::PPResign(true),
@@ -1373,7 +1379,7 @@ fn apply_mut(
 			v.proof.as_ref()?;
 			v.proof = None;
 		}
-		Mut::PPStripRelabel => {
+		Mut::PPStripRelabel | Mut::PPStripRelabelPlanted => {
 			v.proof = None;
 			v.sta = match v.sta {
 				SlateStateV4::Standard2 => SlateStateV4::Invoice2,
@@ -2186,6 +2192,21 @@ fn run_exchange(w: &World, sc: &Script, k: u64, out: &mut Vec<Value>, shard: u64
 		};
 		if sc.flow == Flow::Sync {
 			let _ = guarded(|| s.with(A, |b, mm| owner::tx_lock_outputs(b, mm, &wire)));
+		}
+		if *m == Mut::PPStripRelabelPlanted && sc.flow != Flow::Invoice {
+			// the counterparty plants a received entry under this slate id in the wallet under test
+			let planted = guarded(|| -> Result<(), Error> {
+				let args = InitTxArgs { amount: 1_000_000, minimum_confirmations: 1, max_outputs: 500,
+					num_change_outputs: 1, selection_strategy_is_use_all: false, ..Default::default() };
+				let mut fresh = s.with(R, |b, mm| owner::init_send_tx(b, mm, args, false))?;
+				let fresh_id = fresh.id;
+				fresh.id = id;
+				let _ = s.with(A, |b, mm| foreign::receive_tx(b, mm, &fresh, None, false))?;
+				let pk = s.with(R, |b, _| b.parent_key_id());
+				let _ = s.with(R, |b, mm| vharness::libwallet::verif_hooks::tx::cancel_tx(b, mm, &pk, None, Some(fresh_id)));
+				Ok(())
+			});
+			let _ = planted;
 		}
 		// ---- the call under test
 		let snap_before = s.snapshot(A);
